@@ -66,9 +66,10 @@ CLAIMS = {
              "assertion on every path - composition, inversion and SI agreement then follow algebraically given C05; the SI base table is "
              "checked against SymPy's unit tables read from source (total, right dimension, SI value 1) and the product formula over "
              "dimensional dependencies; the Celsius helpers are affine with one shared constant 273.15, keep the temperature dimension at 0 K "
-             "and are stateless (no memoisation, no stores into arguments).",
+             "and are stateless (no memoisation, no stores into arguments). The Celsius helpers, evaluate_expression and dimension_to_si_unit are "
+             "evaluated from their source on symbolic inputs (whatever the shape of the code).",
         note="Exactness of Fraction/float division and SymPy's subs inside evaluate_expression are not decided; scale factors are assumed to be SI scale factors (C05).",
-        technique="monomial normal form of the return expression, CFG dominance, table check against SymPy unit sources", ref="DESIGN.md §2 C07"),
+        technique="monomial normal form of the return expression, CFG dominance, table check against SymPy unit sources, abstract evaluation of the helpers", ref="DESIGN.md §2 C07"),
     "C09": dict(
         text="Fresh-name provenance for every constructor that creates a SymPy object (the name is next_name(<literal>) on every path, never "
              "data-dependent on display names), injectivity of (prefix, counter) -> name, single monotone writer of the counters, clone "
@@ -77,7 +78,7 @@ CLAIMS = {
              "coordinate-system factories return a fresh object on every path; every other call of a name-keyed SymPy base constructor in core/docs is held to the same rule. These quantify over all creation sequences because they are facts about every path of the constructors.",
         note="Trusts that SymPy treats differently named symbols as distinct under subs/solve/diff. One frozen exception (IndexedSymbol re-created "
              "from an existing SymPy symbol). One defect found and repaired (clone_as_function dropped assumptions).",
-        technique="backward slices of constructor name arguments; who-may-write; sibling agreement of clone helpers", ref="DESIGN.md §2 C09"),
+        technique="abstract evaluation of the constructors and of the clone helpers on model symbols (what reaches the SymPy base constructor / the new symbol is compared with the property); who-may-write; class-level rules for identity overrides", ref="DESIGN.md §2 C09"),
     "C10": dict(
         text="core/vectors/arithmetics.py is evaluated abstractly over generic component indeterminates for every length combination "
              "0..3 x 0..3 (x 0..3) and every coordinate-system identity/kind combination - exactly the property's quantifier. Component "
@@ -94,7 +95,7 @@ CLAIMS = {
              "ScalarField.rebase and the fields' point evaluation are evaluated abstractly: what they hand to sympy is the table with every base "
              "scalar replaced at once by the matching component/coordinate (0 for a missing one), also for points written in the system's own scalars.",
         note="sympy.vector.express and singular points are not decided; radial coordinates assumed non-negative.",
-        technique="formula tables read from the AST + exact algebra; abstract evaluation of the substitution steps; CFG dominance for refusals", ref="DESIGN.md §2 C11"),
+        technique="transformation_to_system and the fields' __call__ evaluated abstractly (tables, refusals per point class and system kind); exact algebra; abstract evaluation of the substitution steps", ref="DESIGN.md §2 C11"),
     "C12": dict(
         text="operators.py is evaluated abstractly for every component count 0..3 and two families of component functions (GENERIC undefined "
              "functions of the three base scalars - hence every twice-differentiable field - and constants): every component of grad/div/curl "
@@ -121,7 +122,7 @@ CLAIMS = {
              "re-evaluation is well-founded (R5: irreducible vector classes are atomic or hooked; _eval_derivative recurses on strict sub-expressions only).",
         note="Not decided: the multilinear expansion engine (_ordered_mul/into_terms/split_factor run SymPy's expand), termination inside SymPy, "
              "id()-order independence beyond the sign rule. Four defects found and repaired (Binet-Cauchy term; three non-terminating derivative paths).",
-        technique="rewrite rules read from branch conditions/returns, expanded to components, exact polynomial identity test", ref="DESIGN.md §2 C14"),
+        technique="the operand hooks, the three product constructors (against a stand-in for _ordered_mul, shared when it is memoised) and sort_with_sign (on every order pattern of up to three operands) evaluated abstractly on generic component vectors; exact polynomial identity test", ref="DESIGN.md §2 C14"),
     "C15": dict(
         text="The twelve conversion tables and three Lame triples are decided mutually consistent: position maps commute with every scalar "
              "conversion (gives direct = via third system and round trips on the charts), base-vector tables are orthonormal rotations, "
@@ -157,9 +158,10 @@ CLAIMS = {
              "of every :symbols:/:quantity_notation: role, absence of order-visible iteration over unordered collections, pairing of the "
              "evaluation disable/reset nodes and the value reset restores, the role resolvers' registration admitting every Symbol/Quantity, and "
              "no unsubstituted {placeholder} in the generator's f-strings.",
-        note="Does not decide that Sphinx/exec/printing actually succeed on every module. The kept-prefix rule is a replica of the patcher's; "
-             "anchors in patch.py are checked (ANALYSIS-ERROR when they change). One defect found and repaired (hash-seed dependent role resolution).",
-        technique="scope analysis of module-level nested scopes, table checks, unordered-iteration dataflow, insertion pairing on the CFG", ref="DESIGN.md §2 C19"),
+        note="Does not decide that Sphinx/exec/printing actually succeed on every module. No replica of the generator is kept: patch_sympy_evaluate, "
+             "find_title_and_description and find_members_and_functions (up to compile) are evaluated from their source on every module's real syntax tree. "
+             "One defect found and repaired (hash-seed dependent role resolution).",
+        technique="concrete evaluation of the generator's own functions on each module's ast (kept prefix, inserted nodes, titles, documented members); scope analysis of module-level nested scopes, table checks, unordered-iteration dataflow", ref="DESIGN.md §2 C19"),
     "C20": dict(
         text="Finite table decided exhaustively: all 27 constants are folded from their source expressions over SymPy's unit tables "
              "(parsed from SymPy's source) to an SI value and a dimension vector and compared with a CODATA-2018/IAU reference table at "
